@@ -503,6 +503,34 @@ func c20Scenarios(tier string) []*h.Scenario {
 				if s.count > 0 && len(s.fail) == 0 && len(keys) > s.count {
 					vs = append(vs, h.V("pruned-back-to-limit", "over-limit-after-pruning", "%d entries at quiescence, Count=%d, every cleanup succeeds", len(keys), s.count))
 				}
+				// never expires an entry that was used within the configured age: a Get that found the entry during the
+				// concurrent phase is a use at the instant of quiescence (the clock does not move afterwards), so - unless
+				// the scenario deletes the key or prunes by count - the entry is still there
+				if s.age > 0 && s.count == 0 {
+					deleted := map[string]bool{}
+					for _, th := range s.threads {
+						for _, op := range th {
+							f := strings.Fields(op)
+							if f[0] == "delall" {
+								deleted["*"] = true
+							}
+							if f[0] == "del" || f[0] == "set" {
+								deleted[f[1]] = true
+							}
+						}
+					}
+					for ti, th := range s.threads {
+						for si, op := range th {
+							f := strings.Fields(op)
+							if f[0] != "get" || deleted["*"] || deleted[f[1]] || !strings.HasPrefix(res[ti][si], "hit ") {
+								continue
+							}
+							if _, ok := holds[f[1]]; !ok {
+								vs = append(vs, h.V("no-expiry-within-age", "expired-entry-used-within-age:concurrent-get", "Get(%s) found the entry (%s) while the age timer was pruning, and the entry is gone at quiescence: %v", f[1], res[ti][si], cw.log))
+							}
+						}
+					}
+				}
 				return vs
 			},
 		})
